@@ -8,11 +8,13 @@ from common import *
 from ferretrun import *
 
 PID = "C06"
-ROOTS = ["let", "const", "forindex", "catcherr", "param_val", "param_ref", "param_mut", "recv_val", "recv_ref", "recv_mut", "local_ref", "local_mut"]
+ROOTS = ["let", "const", "forindex", "forindex_str", "forindex_named_str", "forindex_range", "forindex_map", "catcherr", "param_val", "param_ref", "param_mut", "recv_val", "recv_ref", "recv_mut", "local_ref", "local_mut"]
 # (source suffix applied to the root variable `v`, model path letters outermost-first, type of the place)
 PATHS = [("", "-", "P"), (".X", "f", "i32"), (".In.X", "ff", "i32"), (".Q[0]", "if", "i32"), ("(v).X", "fp", "i32"), (".In.Q[1]", "iff", "i32"),
          ("((v).In).X", "fpfp", "i32"), (".In", "f", "In"), (".Q[1]", "if", "i32")]
-FORMS = ["assign", "compound", "incdec", "mutborrow", "passmut", "mutmethod"]
+FORMS = ["assign", "assign_ref", "compound", "incdec", "mutborrow", "passmut", "mutmethod"]
+MODEL_ROOT = {"forindex_str": "forindex", "forindex_named_str": "forindex", "forindex_range": "forindex", "forindex_map": "forindex"}
+MODEL_FORM = {"assign_ref": "assign"}
 CONTEXTS = ["plain", "loop", "matcharm", "closure", "ifelse"]
 PRE = '''import "std/io";
 type In struct { .X: i32, .Q: [2]i32 };
@@ -26,6 +28,8 @@ fn mkIn() -> In { return { .X = 2, .Q = [3, 4] } as In; }
 fn mk() -> P { return { .X = 1, .In = mkIn(), .Q = [5, 6] } as P; }
 fn fails() -> str ! i32 { return "e"!; }
 fn one() -> i32 { return 1; }
+type Label str;
+fn takeS(r: &'str) { }
 '''
 
 
@@ -38,6 +42,9 @@ def stmt(path, ty, form):
     new = {"P": "mk()", "In": "mkIn()", "i32": "7"}[ty]
     take = {"P": "takeP", "In": "takeIn", "i32": "takeI"}[ty]
     if form == "assign": return "%s = %s;" % (pl, new)
+    if form == "assign_ref":      # the right-hand side is a reference value (auto-dereferenced by the compiler)
+        src = {"P": "srcP", "In": "srcIn", "i32": "srcI"}[ty]
+        return "%s = &%s;" % (pl, src)
     if form == "compound": return "%s += 1;" % pl if ty == "i32" else None
     if form == "incdec": return "%s++;" % pl if ty == "i32" else None
     if form == "mutborrow": return "let rr: &'%s = &'%s;" % (ty, pl)
@@ -57,17 +64,24 @@ def wrap(st, ctx):
 def program(root, path, ty, form, ctx):
     st = stmt(path, ty, form)
     if st is None: return None
-    if path == "" and form in ("mutborrow", "passmut") and root.endswith(("_ref", "_mut")):
-        return None      # `&'v` of a variable that already is a reference: a reference of a reference, not a mutation form
-    if root == "forindex":
+    if path == "" and form in ("mutborrow", "passmut", "assign_ref") and root.endswith(("_ref", "_mut")):
+        return None      # `&'v` of a variable that already is a reference / `v = &x` rebinding it: not a mutation of the referent
+    SRC = "    let srcI: i32 = 3;\n    let srcIn: In = mkIn();\n    let srcP: P = mk();\n"
+    if root.startswith("forindex") and root != "forindex_map":
         if path != "" or form == "mutmethod": return None
-        st = st.replace("mk()", "7").replace("takeP", "takeI").replace("&'P", "&'i32")
-        return PRE + "fn main() {\n    let d: []i32 = [1, 2];\n    for v, e in d {\n%s\n    }\n}\n" % wrap(st, ctx)
+        st = st.replace("mk()", "7").replace("takeP", "takeI").replace("&'P", "&'i32").replace("&srcP", "&srcI")
+        head = {"forindex": "    let d: []i32 = [1, 2];\n    for v, e in d {", "forindex_str": "    for v, e in \"ab\" {",
+                "forindex_named_str": "    let lb: Label = \"ab\" as Label;\n    for v, e in lb {", "forindex_range": "    let lo: i32 = 0;\n    let hi: i32 = 2;\n    for v, e in lo..hi {"}[root]
+        return PRE + "fn main() {\n" + SRC + head + "\n%s\n    }\n}\n" % wrap(st, ctx)
+    if root == "forindex_map":      # the key variable of a two-variable loop over a map
+        if path != "" or form in ("mutmethod", "compound", "incdec"): return None
+        st = st.replace("mk()", "\"z\"").replace("takeP", "takeS").replace("&'P", "&'str").replace("&srcP", "&srcS")
+        return PRE + "fn main() {\n    let srcS: str = \"q\";\n    let mm := {\"a\" => 1} as map[str]i32;\n    for v, e in mm {\n%s\n    }\n}\n" % wrap(st, ctx)
     if root == "catcherr":
         if path != "" or form in ("mutmethod", "compound", "incdec"): return None
-        st = st.replace("mk()", "\"z\"").replace("takeP", "takeS").replace("&'P", "&'str")
-        return PRE + "fn takeS(r: &'str) { }\nfn main() {\n    fails() catch v {\n%s\n        return;\n    };\n}\n" % wrap(st, ctx)
-    body = wrap(st, ctx)
+        st = st.replace("mk()", "\"z\"").replace("takeP", "takeS").replace("&'P", "&'str").replace("&srcP", "&srcS")
+        return PRE + "fn main() {\n    let srcS: str = \"q\";\n    fails() catch v {\n%s\n        return;\n    };\n}\n" % wrap(st, ctx)
+    body = SRC.replace("    ", "        ", 0) + wrap(st, ctx)
     if root == "let": return PRE + "fn main() {\n    let v: P = mk();\n%s\n}\n" % body
     if root == "const": return PRE + "fn main() {\n    const v: P = mk();\n%s\n}\n" % body
     if root.startswith("param"):
@@ -106,7 +120,7 @@ def main():
     if tier == "quick":
         rng = SplitMix64(seed() * 2654435761 + 6)
         cases = [c for c in cases if c[5] == "plain" or rng.below(3) == 0]
-    model = run_driver(["mut"], "".join("%s %s %s\n" % (c[0], c[2], c[4]) for c in cases)).split("\n")
+    model = run_driver(["mut"], "".join("%s %s %s\n" % (MODEL_ROOT.get(c[0], c[0]), c[2], MODEL_FORM.get(c[4], c[4])) for c in cases)).split("\n")
     res = run_many([{"files": {"main.fer": c[6]}, "mode": "check"} for c in cases])
     diffs, st = [], {"cases": len(cases), "rejected": 0, "accepted": 0, "other_errors": 0, "immutable_roots": 0}
     for c, m, r in zip(cases, model, res):
@@ -157,7 +171,7 @@ def main():
         "trusted_base": ["Lean 4 kernel", "axioms: " + ", ".join(sorted({a for v in axioms.values() if v for a in v})), "program templates per (root, path, form, context)", "diagnostic text classes"],
         "theorems": [{"name": nm, "axioms": axioms.get(nm)} for nm in names],
         "evaluations": len(cases), "distinct_nontrivial": st["immutable_roots"],
-        "rule": "product of 12 root kinds x 9 access paths (ident, field chains, indices, parentheses, depth <= 3) x 6 mutation forms x 5 contexts (plain, loop, match arm, closure, else branch); "
+        "rule": "product of 16 root kinds (incl. two-variable loops over array, string, named string type, range, map key) x 9 access paths (ident, field chains, indices, parentheses, depth <= 3) x 7 mutation forms (assignment also with a reference-typed right-hand side) x 5 contexts (plain, loop, match arm, closure, else branch); "
                 "thorough = the whole product, quick = all plain-context cases + a seeded third of the others; non-trivial = cases rooted in an immutable binding",
         "exhaustive": tier != "quick",
         "samples": ["%s|%s|%s|%s" % (c[0], c[1] or "v", c[4], c[5]) for c in cases[7:len(cases):max(1, len(cases) // 8)]],
